@@ -332,6 +332,16 @@ def gen_spec(rng, cls, n):
         mode = rng.random()
         if mode < 0.4:
             kw = {"location": rng.choice([None, rloc(rng, n, strands=(0, 1, -1))])}
+            if kw["location"] is not None and rng.random() < 0.5:
+                # objective use: keep a given sequence that the current one already differs from
+                a, b, strand = kw["location"]
+                sub = seq[a:b] if strand != -1 else rcs(seq[a:b])
+                t = list(sub)
+                for _ in range(rng.randint(1, 3)):
+                    i = rng.randrange(len(t))
+                    t[i] = rng.choice([c for c in "ACGT" if c != t[i]])
+                kw["target_sequence"] = "".join(t)
+                role = "objective"
         elif mode < 0.6:
             kw = {"indices": tuple(sorted(rng.sample(range(n), rng.randint(1, min(6, n)))))}
         else:
